@@ -83,6 +83,9 @@ class MonEnv(Environment):
 LIMITS = ["loop_iteration_limit", "output_stream_limit", "local_namespace_limit", "context_depth_limit", "block_nesting_limit"]
 
 
+HEAVY = {"output_stream_limit": 4_000_000, "loop_iteration_limit": 300_000, "local_namespace_limit": 4_000_000}
+
+
 def run(case, limits: dict[str, Any], data):
     env = drv.make_env({"mode": "strict", "extra": True, "limits": limits, "undefined": case.get("undefined", "default")}, loader=DictLoader(dict(case["partials"])), base=MonEnv)
     _reset()
@@ -108,6 +111,11 @@ def outcome_key(o) -> tuple:
 
 def judge(ctx: core.Ctx, case: dict[str, Any]) -> None:
     data = V.dec(case["data"])
+    # workload guard (never a verdict): see C07
+    probe = run(case, HEAVY, data)
+    if not probe.ok and isinstance(probe.exc, ResourceLimitError):
+        ctx.count("workload_too_heavy_skipped")
+        return
     base = run(case, {}, data)
     used = dict(USE)
     if not base.ok and not base.is_liquid_error:
